@@ -24,11 +24,10 @@ impl SDJWTDisclosure  {
 
         #[cfg(feature = "mock_salts")]
         let salt = {
-            value_str = value_str
-                .replace(":[", ": [")
-                .replace(',', ", ")
-                .replace("\":", "\": ")
-                .replace("\":  ", "\": ");
+            // Python-style separators (", " and ": ") between tokens only, never inside strings
+            if let Ok(parsed) = serde_json::from_str::<Value>(&value_str) {
+                value_str = to_python_style_json(&parsed);
+            }
             generate_salt_mock()
         };
 
@@ -80,6 +79,31 @@ fn escape_unicode_chars(s: &str) -> String {
     }
 
     result
+}
+
+#[cfg(feature = "mock_salts")]
+struct PythonStyleFormatter;
+
+#[cfg(feature = "mock_salts")]
+impl serde_json::ser::Formatter for PythonStyleFormatter {
+    fn begin_array_value<W: ?Sized + std::io::Write>(&mut self, writer: &mut W, first: bool) -> std::io::Result<()> {
+        if first { Ok(()) } else { writer.write_all(b", ") }
+    }
+    fn begin_object_key<W: ?Sized + std::io::Write>(&mut self, writer: &mut W, first: bool) -> std::io::Result<()> {
+        if first { Ok(()) } else { writer.write_all(b", ") }
+    }
+    fn begin_object_value<W: ?Sized + std::io::Write>(&mut self, writer: &mut W) -> std::io::Result<()> {
+        writer.write_all(b": ")
+    }
+}
+
+#[cfg(feature = "mock_salts")]
+fn to_python_style_json(value: &Value) -> String {
+    use serde::Serialize;
+    let mut buf = Vec::new();
+    let mut ser = serde_json::Serializer::with_formatter(&mut buf, PythonStyleFormatter);
+    value.serialize(&mut ser).expect("serializing a JSON value cannot fail");
+    String::from_utf8(buf).expect("serde_json emits UTF-8")
 }
 
 fn escape_json(s: &str) -> String {
